@@ -43,8 +43,8 @@ import ebpfcat.hashmap as HM
 from ebpfcat.arraymap import ArrayMap
 from ebpfcat.bpf import MapFlags, ProgType
 from ebpfcat.ebpf import (
-    EBPF, Instruction, LocalVar, Member, Structure, SubProgram, fmtsize,
-    ktime, prandom)
+    EBPF, Expression, Instruction, LocalVar, Member, Memory, Structure,
+    SubProgram, fmtsize, ktime, prandom)
 from ebpfcat.hashmap import Dict, HashMap
 from ebpfcat.xdp import XDP, PacketVar, XDPExitCode
 
@@ -71,8 +71,10 @@ SRCDIR = os.path.dirname(os.path.abspath(ebpfcat.__file__))
 KF_XADD = "C05-xadd-into-packet"
 KF_R0 = "C05-hashvar-read-restores-r0-over-pointer"
 KF_DICT = "C05-dict-call-saves-into-r0"
+KF_REOWN = "C05-restored-registers-unowned"
 KF_WIDE = "C05-hashvar-set-reads-8-bytes-of-narrow-source"
 KF_TEMP = "C05-temporary-below-full-stack"
+KF_EXIT = "C05-else-after-exit-unreachable-jump"
 
 
 def _try_import(name):
@@ -251,7 +253,7 @@ def judge(res, family, shape, code, outside=None, triggers=()):
     if n > KEEP:
         res.count("violations_not_stored")
         if kf is not None:
-            res.count("not_stored:" + kf)
+            res.count("not_stored:" + str(kf))
         return verdict
     res.violation(dict(family=family, shape=shape),
                   "BPF_PROG_LOAD accepts the program the generator accepted",
@@ -295,118 +297,202 @@ def submit(res, family, shape, outside=None, triggers=()):
             res.outcomes.add("rejected:" + type(ex).__name__)
             return None
         if isinstance(code, tuple):         # builder found a side condition
-            code, why = code
+            code, why, *more = code
             outside = outside or why
+            if more:
+                triggers = set(triggers) | more[0]
         return judge(res, family, shape, code, outside, triggers)
 
 
 # ====================================================================
-# known findings: narrow matchers
+# known findings: narrow matchers = trigger + message + defect model
 # ====================================================================
+# A rejected program is attributed to documented defects only if
+#  (1) its shape has the structural trigger of each of them,
+#  (2) the verifier's complaint is one those defects are documented with,
+#  (3) the SAME program, generated again with exactly those defects repaired
+#      (a wrapper around the one library function concerned, the rest of the
+#      library - including whatever a mutation changed - untouched), loads.
+# The smallest set of repairs that makes the program load is the attribution;
+# a rejection no documented repair explains stays a fresh violation.
 def _xadd_to_store(code):
-    """defect model for KF_XADD: the same program with every atomic add
-    replaced by a plain store of the same width"""
+    """repair model for KF_XADD at bytecode level: every atomic add becomes
+    a plain store of the same width (what the verifier objects to is the
+    atomic access to packet memory, nothing else)"""
     out = bytearray(code)
-    hit = False
     for i in range(0, len(out), 8):
         if out[i] in (0xc3, 0xdb):
             out[i] = 0x63 if out[i] == 0xc3 else 0x7b
             out[i + 4:i + 8] = bytes(4)
-            hit = True
-    return bytes(out) if hit else None
+    return bytes(out)
 
 
-def _insns(code):
-    return [list(struct.unpack_from("<BBhi", code, i))
-            for i in range(0, len(code), 8)]
+@contextlib.contextmanager
+def seam_r0():
+    """KF_R0 repaired: HashGlobalVar.get_address always moves the looked-up
+    pointer into the destination register before save_registers restores
+    r0 (the library does so only when `force` is set)"""
+    orig = HM.HashGlobalVar.get_address
+
+    def get_address(self, dst, long, force=False):
+        return orig(self, dst, long, force or dst is not None)
+    HM.HashGlobalVar.get_address = get_address
+    try:
+        yield
+    finally:
+        HM.HashGlobalVar.get_address = orig
 
 
-def _pack(ins):
-    return b"".join(struct.pack("<BBhi", *i) for i in ins)
+@contextlib.contextmanager
+def seam_park():
+    """KF_DICT repaired: save_registers parks saved registers only in
+    registers a helper call preserves (r6..r9)"""
+    orig = EBPF.save_registers
+
+    @contextlib.contextmanager
+    def save_registers(self, registers):
+        block = set(range(6)) - self.owners - set(registers)
+        self.owners |= block
+        cm = orig(self, registers)
+        try:
+            cm.__enter__()
+        finally:
+            self.owners -= block
+        try:
+            yield
+        except BaseException as ex:
+            if not cm.__exit__(type(ex), ex, ex.__traceback__):
+                raise
+        else:
+            cm.__exit__(None, None, None)
+    EBPF.save_registers = save_registers
+    try:
+        yield
+    finally:
+        EBPF.save_registers = orig
 
 
-def _drop_r0_restore(code):
-    """defect model for KF_R0: the same program without the `r0 = <saved
-    r0>` that save_registers emits between a map_lookup_elem call and the
-    first access through the returned pointer"""
-    ins = _insns(code)
-    hit = False
-    for i, (op, regs, off, imm) in enumerate(ins):
-        if op != 0x85 or imm != 1:
-            continue
-        for j in range(i + 1, min(i + 14, len(ins))):
-            o, r, _, _ = ins[j]
-            dst, src = r & 15, r >> 4
-            if o == 0x85:
-                break
-            if o == 0xbf and dst == 0 and src != 0:
-                ins[j][1] = src | src << 4        # rX = rX: a no-op
-                hit = True
-                break
-            cls = o & 7
-            if (cls == 1 and src == 0) or (cls in (2, 3) and dst == 0):
-                break                             # r0 used as a pointer
-    return _pack(ins) if hit else None
+@contextlib.contextmanager
+def seam_reown():
+    """KF_REOWN repaired: what was owned before a helper-call block is owned
+    after it (save_registers restores the registers it saved but drops them
+    from `owners`; call() drops the reserved destination register)"""
+    orig = EBPF.save_registers
+
+    @contextlib.contextmanager
+    def save_registers(self, registers):
+        before = self.owners.copy()
+        with orig(self, registers):
+            yield
+        self.owners |= before
+    EBPF.save_registers = save_registers
+    try:
+        yield
+    finally:
+        EBPF.save_registers = orig
 
 
-def _park_r1_elsewhere(code):
-    """defect model for KF_DICT: `r0 = r1; call helper; r1 = r0` (the
-    context parked in the register the call overwrites) with the parking
-    register replaced by a callee-saved one the program does not use"""
-    ins = _insns(code)
-    used = set()
-    for op, regs, off, imm in ins:
-        used |= {regs & 15, regs >> 4}
-    free = [r for r in (6, 7, 8, 9) if r not in used]
-    if not free:
-        return None
-    f, hit = free[0], False
-    for i, (op, regs, off, imm) in enumerate(ins):
-        if op == 0xbf and regs == (0 | 1 << 4):           # r0 = r1
-            for j in range(i + 1, min(i + 12, len(ins))):
-                if ins[j][0] == 0x85:
-                    for k in range(j + 1, min(j + 6, len(ins))):
-                        if ins[k][0] == 0xbf and ins[k][1] == (1 | 0 << 4):
-                            ins[i][1] = f | 1 << 4
-                            ins[k][1] = 1 | f << 4
-                            hit = True
-                            break
-                    break
-    return _pack(ins) if hit else None
+class _Spilled(Expression):
+    """a value that is computed and spilled to the stack when its address
+    is asked for (Expression.get_address), whatever it is"""
+    def __init__(self, inner):
+        self.inner = inner
+        self.ebpf = inner.ebpf
+        self.signed = inner.signed
+        self.fixed = inner.fixed
+
+    def calculate(self, dst, long, force=False):
+        return self.inner.calculate(dst, long, force)
 
 
-WIDE_MSGS = ("invalid read from stack RN off=N size=N",
-             "invalid indirect access to stack RN off=N size=N",
-             "RN min value is outside of the allowed memory range",
-             "RN max value is outside of the allowed memory range",
-             "RN offset is outside of the packet")
-TEMP_MSGS = ("invalid write to stack RN off=N size=N",
+@contextlib.contextmanager
+def seam_wide():
+    """KF_WIDE repaired: `hashvar = <memory variable narrower than 8
+    bytes>` stores the variable's value (spilled as 8 bytes) instead of
+    handing the variable's own address to map_update_elem"""
+    orig = HM.HashGlobalVarDesc.__set__
+
+    def __set__(self, ebpf, value):
+        if not ebpf.loaded and isinstance(value, Memory) and not (
+                isinstance(value.fmt, str) and fmtsize(value.fmt) == 8):
+            value = _Spilled(value)
+        return orig(self, ebpf, value)
+    HM.HashGlobalVarDesc.__set__ = __set__
+    try:
+        yield
+    finally:
+        HM.HashGlobalVarDesc.__set__ = orig
+
+
+SCALAR = "RN invalid mem access 'scalar'"
+# id -> (trigger, admissible complaints, generator seam or None)
+DEFECTS = {
+    KF_XADD: ("xadd-pkt",
+              {"BPF_ATOMIC stores into RN pkt is not allowed"}, None),
+    KF_R0: ("hash-read", {SCALAR}, seam_r0),
+    KF_DICT: ("dict-call", {SCALAR}, seam_park),
+    KF_REOWN: ("helper-restore",
+               {SCALAR, "RN invalid mem access 'pkt_end'", "RN !read_ok",
+                "RN invalid mem access 'map_value'",
+                "RN invalid mem access 'map_ptr'",
+                "RN invalid mem access 'fp'",
+                "RN invalid mem access 'pkt'"}, seam_reown),
+    KF_WIDE: ("hash-set-narrow",
+              {"invalid read from stack RN off=N size=N",
+               "invalid indirect access to stack RN off=N size=N",
+               "RN min value is outside of the allowed memory range",
+               "RN max value is outside of the allowed memory range",
+               "RN offset is outside of the packet"}, seam_wide),
+}
+DEFECT_ORDER = [KF_XADD, KF_R0, KF_DICT, KF_REOWN, KF_WIDE]
+TEMP_MSGS = {"invalid write to stack RN off=N size=N",
              "invalid stack off=N size=N",
              "invalid indirect access to stack RN off=N size=N",
-             "invalid read from stack RN off=N size=N")
+             "invalid read from stack RN off=N size=N"}
+
+
+def rebuild(family, shape, kfs):
+    """the program of `shape` generated with the defects `kfs` repaired ->
+    bytes, or None if the generator refuses it then"""
+    with contextlib.ExitStack() as st:
+        for k in kfs:
+            if DEFECTS[k][2] is not None:
+                st.enter_context(DEFECTS[k][2]())
+        w = st.enter_context(World())
+        try:
+            code = BUILDERS[family](shape, w)
+        except core.Internal:
+            raise
+        except _Captured as c:
+            code = c.code
+        except Exception as ex:
+            # parking in r6..r9 only needs more registers: the repaired
+            # generator refuses the program instead of emitting a bad one
+            if KF_DICT in kfs and type(ex).__name__ == "AssembleError" \
+                    and str(ex) == "not enough registers":
+                return None, None
+            return None
+        if isinstance(code, tuple):
+            code = code[0]
+        if KF_XADD in kfs:
+            code = _xadd_to_store(code)
+        return code, load(code)
 
 
 def classify(family, shape, norm, code, trig):
-    """-> known-finding id, only when the structural trigger, the verifier's
-    message and (where one exists) the defect model all agree"""
-    if "xadd-pkt" in trig and \
-            norm == "BPF_ATOMIC stores into RN pkt is not allowed":
-        alt = _xadd_to_store(code)
-        if alt is not None and load(alt) is None:
-            return KF_XADD
-    if norm == "RN invalid mem access 'scalar'":
-        if "hash-read" in trig:
-            alt = _drop_r0_restore(code)
-            if alt is not None and load(alt) is None:
-                return KF_R0
-        if "dict-call" in trig:
-            alt = _park_r1_elsewhere(code)
-            if alt is not None and load(alt) is None:
-                return KF_DICT
-    if "hash-set-narrow-edge" in trig and norm in WIDE_MSGS:
-        return KF_WIDE
+    """-> known-finding id(s) or None"""
     if "temp-below-512" in trig and norm in TEMP_MSGS:
-        return KF_TEMP
+        return KF_TEMP          # no repair exists: trigger + message only
+    if "exit-then-else" in trig and norm == "unreachable insn N":
+        return KF_EXIT
+    cands = [k for k in DEFECT_ORDER if DEFECTS[k][0] in trig]
+    for n in range(1, len(cands) + 1):
+        for sub in itertools.combinations(cands, n):
+            if not any(norm in DEFECTS[k][1] for k in sub):
+                continue
+            out = rebuild(family, shape, sub)
+            if out is not None and out[1] is None:
+                return sub[0] if n == 1 else list(sub)
     return None
 
 
@@ -936,8 +1022,13 @@ class SpecProg:
 
 def _b_spec(s, w):
     p = SpecProg(s)
-    if p.declared_bytes() > 512:
+    n = p.declared_bytes()
+    if n > 512:
         return p.code, "declared variables exceed the 512-byte stack"
+    if n > 512 - 16 and ("amap" in p.cls.__dict__ or "hmap" in p.cls.__dict__):
+        # the declarations fit, but leave no room for the temporaries the
+        # generator itself puts below them (map keys, spilled values)
+        return p.code, None, {"temp-below-512"}
     return p.code
 
 
@@ -1092,73 +1183,52 @@ def fam_hash(ctx):
     return out
 
 
-def hash_triggers(spec):
+MEMORY_KINDS = ("l", "a", "p", "ml", "ma", "sl", "sa", "dk", "dv", "lv",
+                "pa", "ea")
+
+
+def _flat(stmts):
+    """every statement of a body, nested ones included"""
+    for s in stmts or ():
+        yield s
+        if s[0] == "if":
+            yield from _flat(s[2])
+            yield from _flat(s[3])
+        elif s[0] == "look":
+            yield from _flat(s[1])
+            yield from _flat(s[2])
+        elif s[0] == "psz":
+            yield from _flat(s[3])
+            yield from _flat(s[4])
+
+
+def spec_triggers(spec):
     """structural triggers of the documented defects in a spec program"""
     t = set()
-    regs = {int(k) for k in spec.get("regs", {})}
-    loc = spec.get("loc", ())
-    size = {"B": 1, "b": 1, "H": 2, "h": 2, "I": 4, "i": 4, "Q": 8, "q": 8}
-    # stack offsets of the locals, as LocalVar.__set_name__ lays them out
-    pos, top = [], 0
-    if spec.get("dorder") != "first":
-        for f in loc:
-            n = 1 if isinstance(f, (list, tuple)) else size[f]
-            top = (top - n) & -n
-            pos.append((top, n))
-    temp_need = False
-
-    def walk(stmts, r0_owned, in_look):
-        nonlocal temp_need
-        for s in stmts:
-            k = s[0]
-            if k in ("set", "iadd", "isub"):
-                d, src = s[1], s[2]
-                if k != "set" and d[0] in ("p", "pa", "ea"):
-                    t.add("xadd-pkt")
-                rd = reads_hash(src) or (k != "set" and d[0] == "h")
-                if rd or d[0] == "h":
-                    temp_need = True
-                if rd:
-                    t.add("hash-read")
-                if k == "set" and d[0] == "h" and src[0] in ("l", "a", "p"):
-                    if src[0] == "l" and pos and pos[src[1]][1] < 8 \
-                            and pos[src[1]][0] + 8 > 0:
-                        t.add("hash-set-narrow-edge")
-                    if src[0] == "a":
-                        av = spec.get("av", ())
-                        order = sorted(range(len(av)),
-                                       key=lambda i: -size[av[i]])
-                        at, where = 0, {}
-                        for i in order:
-                            where[i] = at
-                            at += size[av[i]]
-                        total = (at + 7) // 8 * 8
-                        if where[src[1]] + 8 > total:
-                            t.add("hash-set-narrow-edge")
-                    if src[0] == "p":
-                        off, f = spec["pv"][src[1]]
-                        if off + 8 > spec.get("min", 0) + 1:
-                            t.add("hash-set-narrow-edge")
-                if d[0] == "r" and d[1] == 0:
-                    r0_owned = True
-                if src in (KT, PR) or (isinstance(src, list) and
-                                       (KT in src or PR in src)):
-                    pass
-            elif k == "if":
-                if reads_hash(s[1]):
-                    temp_need = True
-                    t.add("hash-read")
-                walk(s[2], r0_owned, in_look)
-                if s[3] is not None:
-                    walk(s[3], r0_owned, in_look)
-            elif k == "look":
-                walk(s[1], True, True)
-                if s[2] is not None:
-                    walk(s[2], True, False)
-                r0_owned = True
-            elif k == "upd":
-                r0_owned = True
-    walk(spec.get("body", ()), 0 in regs, False)
+    bodies = [spec.get("body", ())] + [sb.get("body", ())
+                                       for sb in spec.get("subs", ())]
+    for s in itertools.chain.from_iterable(_flat(b) for b in bodies):
+        k = s[0]
+        if k in ("set", "iadd", "isub"):
+            d, src = s[1], s[2]
+            if k != "set" and d[0] in ("p", "pa", "ea"):
+                t.add("xadd-pkt")       # in-place add on packet memory
+            rd = reads_hash(src) or (k != "set" and d[0] == "h")
+            if rd:
+                t.add("hash-read")      # a hash-map variable is read
+            if rd or d[0] == "h":
+                t.add("helper-restore")
+            if k == "set" and d[0] == "h" and src[0] in MEMORY_KINDS:
+                t.add("hash-set-narrow")    # hashvar = memory variable
+        elif k in ("if",) and reads_hash(s[1]):
+            t |= {"hash-read", "helper-restore"}
+        elif k in ("upd", "look"):
+            t |= {"dict-call", "helper-restore"}
+        if k in ("if", "look", "psz"):
+            body, els = (s[2], s[3]) if k == "if" else \
+                (s[1], s[2]) if k == "look" else (s[3], s[4])
+            if els is not None and body and body[-1][0] == "exit":
+                t.add("exit-then-else")
     return t
 
 
@@ -1225,29 +1295,6 @@ def fam_dict(ctx):
     return out
 
 
-def dict_triggers(spec):
-    """a Dict helper call (save_registers parks r1 in r0 when r0 is free,
-    the call overwrites it)"""
-    t = hash_triggers(spec)
-    if any(s[0] in ("upd", "look") for s in _flat(spec.get("body", ()))):
-        t.add("dict-call")
-    return t
-
-
-def _flat(stmts):
-    for s in stmts:
-        yield s
-        if s[0] == "if":
-            yield from _flat(s[2])
-            yield from _flat(s[3] or ())
-        elif s[0] == "look":
-            yield from _flat(s[1])
-            yield from _flat(s[2] or ())
-        elif s[0] == "psz":
-            yield from _flat(s[3])
-            yield from _flat(s[4] or ())
-
-
 # ---- ktime / prandom
 def fam_time(ctx):
     ctxs = REGCTX_QUICK if ctx.quick else REGCTX
@@ -1285,10 +1332,16 @@ def fam_time(ctx):
                 for tail in tails:
                     out.append(dict(regs=regctx(regs),
                                     body=[["if", cnd, body, e2]] + tail))
+    full = dict(xdp=True, min=32, loc=["B", "I", "Q"], hv=["Q"],
+                av=["I", "Q"], pv=[[0, "I"]])
+    light = dict(xdp=True, min=None, loc=["B", "I", "Q"], hv=["Q"])
+    res = []
     for sp in out:
-        sp.update(xdp=True, min=32, loc=["B", "I", "Q"], hv=["Q"],
-                  av=["I", "Q"], pv=[[0, "I"]])
-    return out
+        if len(sp["regs"]) <= 1:
+            res.append(dict(sp, **full))
+        if not mentions(sp["body"], ("a", "p", "ea")):
+            res.append(dict(sp, **light))
+    return res
 
 
 # ---- subprograms
@@ -1396,33 +1449,6 @@ def fam_stack(ctx):
     return out
 
 
-def stack_triggers(spec):
-    """the declarations fit 512 bytes but leave no room for the temporary
-    the generator itself puts below them (hash-map key, spilled value,
-    array-map lookup key)"""
-    t = set()
-    size = {"B": 1, "b": 1, "H": 2, "h": 2, "I": 4, "i": 4, "Q": 8, "q": 8}
-    top = 0
-    for f in spec.get("loc", ()):
-        n = 1 if isinstance(f, (list, tuple)) else size[f]
-        top = (top - n) & -n
-    if spec.get("dict"):
-        top -= 16
-    sub = 0
-    for sb in spec.get("subs", ()):
-        s = 0
-        for f in sb.get("loc", ()):
-            n = size[f]
-            s = (s - n) & -n
-        sub = min(sub, s)
-    low = (top & -8) + sub if sub else top
-    uses_temp = bool(spec.get("av")) or reads_hash(spec.get("body")) or \
-        any(reads_hash(sb.get("body")) for sb in spec.get("subs", ()))
-    if uses_temp and -low <= 512 and -low + 16 > 512:
-        t.add("temp-below-512")
-    return t
-
-
 # ---- packet-size guards
 def fam_pkt(ctx):
     out = []
@@ -1487,13 +1513,69 @@ def fam_pkt(ctx):
 
 
 SPEC_FAMILIES = {
-    "hash": (fam_hash, hash_triggers),
-    "dict": (fam_dict, dict_triggers),
-    "time": (fam_time, hash_triggers),
-    "sub": (fam_sub, hash_triggers),
-    "stack": (fam_stack, lambda s: hash_triggers(s) | stack_triggers(s)),
-    "pkt": (fam_pkt, hash_triggers),
+    "hash": (fam_hash, spec_triggers),
+    "dict": (fam_dict, spec_triggers),
+    "time": (fam_time, spec_triggers),
+    "sub": (fam_sub, spec_triggers),
+    "stack": (fam_stack, spec_triggers),
+    "pkt": (fam_pkt, spec_triggers),
 }
+
+
+REGKINDS = ("r", "w", "sr", "sw")
+
+
+def registers_initialised(spec):
+    """side condition 'only initialised variables' for registers: every
+    register a statement reads was planted or assigned by an earlier
+    top-level statement (RegisterArray.__setitem__ marks the destination
+    as owned before the value is computed, so `r2 = r2 + 1` on a fresh r2
+    is not refused by the generator)"""
+    have = {int(k) for k in spec.get("regs", {})}
+
+    def reads(o):
+        if not isinstance(o, list) or not o:
+            return set()
+        if o[0] in REGKINDS and len(o) == 2 and isinstance(o[1], int):
+            return {o[1]}
+        out = set()
+        for x in o:
+            out |= reads(x)
+        return out
+
+    def ok(stmts, have):
+        for s in stmts or ():
+            k = s[0]
+            if k == "set":
+                if not reads(s[2]) <= have:
+                    return False
+                if s[1][0] in REGKINDS:
+                    have = have | {s[1][1]}
+                elif not reads(s[1]) <= have:
+                    return False
+            elif k in ("iadd", "isub"):
+                if not reads(s[1:]) <= have:
+                    return False
+            elif k == "if":
+                if not reads(s[1]) <= have or not ok(s[2], have) \
+                        or not ok(s[3], have):
+                    return False
+            elif k == "look":
+                if not ok(s[1], have) or not ok(s[2], have):
+                    return False
+            elif k == "psz":
+                if not ok(s[3], have) or not ok(s[4], have):
+                    return False
+        return True
+    return ok(spec.get("body"), have) and all(
+        ok(sb.get("body"), have) for sb in spec.get("subs", ()))
+
+
+def spec_items(ctx):
+    out = []
+    for fam, (enum, _) in SPEC_FAMILIES.items():
+        out += [(fam, sp) for sp in enum(ctx) if registers_initialised(sp)]
+    return out
 
 
 def _spec_item(item, res):
@@ -1646,9 +1728,7 @@ def work(item, res):
 
 
 def all_items(ctx):
-    items = []
-    for fam, (enum, _) in SPEC_FAMILIES.items():
-        items += [(fam, sp) for sp in enum(ctx)]
+    items = spec_items(ctx)
     items += fam_lib(ctx)
     items += reuse_items(ctx)
     return items
